@@ -169,6 +169,21 @@ def run_case(ctx, pydsdl, lay, workdir):
         ("abs-target/[name-root,abs-other]", ws, [fpath], [lay["root"], other_dir], True),
         ("abs-target/[abs-other,abs-root]", ws, [fpath], [other_dir, rootdir], True),
     ]
+    # designations off the documented forms that may fail, but only with an InvalidDefinitionError, and must give the identity
+    # encoded by the path when they succeed: the target reached through '..' across a sibling root (a root that is only a
+    # lexical prefix of the target is not its root), and roots spelled '.' / '../<root>' from inside the tree
+    via_other = other_dir / ".." / lay["root"] / Path(*nsdirs) / file_name(lay) if nsdirs else other_dir / ".." / lay["root"] / file_name(lay)
+    in_root_rel = Path(*nsdirs, file_name(lay))
+    designs += [
+        ("abs-dotdot-via-other/[abs-other,abs-root]", ws, [via_other], [other_dir, rootdir], False),
+        ("abs-dotdot-via-other/[abs-root,abs-other]", ws, [via_other], [rootdir, other_dir], False),
+        ("abs-dotdot-via-other/names", ws, [via_other], ["otherroot", lay["root"]], False),
+        ("cwd-other/rel-dotdot/[dot,rel-root]", other_dir, [Path("..", lay["root"], *nsdirs, file_name(lay))], [".", Path("..", lay["root"])], False),
+        ("cwd-other/rel-dotdot/[rel-root,dot]", other_dir, [Path("..", lay["root"], *nsdirs, file_name(lay))], [Path("..", lay["root"]), "."], False),
+        ("cwd-in-root/dot-root", rootdir, [in_root_rel], ["."], False),
+        ("cwd-in-root/dotdot-root", rootdir, [in_root_rel], [Path("..", lay["root"])], False),
+        ("cwd-in-root/abs-root", rootdir, [in_root_rel], [rootdir], False),
+    ]
     if nsdirs and not lay["malformed"] and nsdirs[-1] not in lay["prefix"] and nsdirs[-1] != lay["root"] and nsdirs[-1] not in ws.parts:
         # a namespace directory below the root that is itself named like another root in the list: the list order of the
         # bare names must not decide which directory becomes the root
@@ -264,10 +279,20 @@ def run_shard(ctx):
             ctx.sigs.add("%r|%s" % (sorted(lay.items(), key=str), did)) if nt else None
         ctx.case(repr(sorted(lay.items(), key=str)), nt, classes=["malformed-" + str(lay["malformed"]), "prefix-depth-%d" % len(lay["prefix"]), "ns-depth-%d" % len(lay["ns"])],
                  sample={"layout": lay, "file": file_name(lay), "results": {k: v[0] for k, v in res.items()}} if i < 3 else None)
+    # definition files that are symbolic links: the identity is the one encoded by the link's own path (experiment shared with C10)
+    from pv.props.c10 import symlink_case
+
+    for _ in range(ctx.share(ctx.params["n"]) // 8):
+        symlink_case(ctx, pydsdl, ctx.rng.randrange(1 << 40), ctx.tmp, prefix="C15")
 
 
 def replay(ctx, case):
     pydsdl = import_pydsdl()
+    if "symlinks" in case:
+        from pv.props.c10 import symlink_case
+
+        symlink_case(ctx, pydsdl, case["symlinks"], ctx.tmp, prefix="C15")
+        return
     lay = case["layout"]
     lay["ver"] = tuple(lay["ver"])
     for k, v in run_case(ctx, pydsdl, lay, ctx.tmp).items():
